@@ -702,6 +702,11 @@ SCAN_REMOVED = dict(region='scan_removed', file='cmdline/scan.c', begin='/* chec
                     proto='static void region_scan_removed(struct snapraid_scan *scan, struct snapraid_disk *disk, int is_diff)', prologue='\ttommy_node *node;\n\tchar esc_buffer[ESC_MAX];', epilogue='\t(void)esc_buffer;')
 
 
+def lock_obs():
+    return [Ob('util.lock_lock', 'harness/h_lock.c', 'h_lock_lock', ['cmdline/util.c'], unwind=4, small_path=True, timeout=600, mem=6, cost=2, replay=False,
+               functions=['lock_lock / lock_unlock (cmdline/util.c)'], note='every outcome of open / flock / close (stubs)')]
+
+
 def scanhelpers_obs():
     return [Ob('scan.link_dir_set_changes', 'harness/h_scanhelpers.c', 'h_scan_set_changes', unwind=6, small_path=True, timeout=600, mem=6, cost=3, replay=False,
                functions=['scan_link_insert / scan_link_remove / scan_emptydir_insert / scan_emptydir_remove (cmdline/scan.c, whole translation unit; containers and deallocation routed to recording stubs)'],
@@ -780,7 +785,7 @@ def c14(tier, seed):
         Ob('parity.allocated_size', P, 'h_allocated_size', unwind=8, small_path=True, timeout=900, mem=6, cost=8, kind='bounded', bound='1..3 disks of at most 5 positions, every block state at every position',
            functions=['parity_allocated_size (cmdline/parity.c)', 'block_has_file (cmdline/elem.h)'], note='fs_size / fs_par2block_find by stub over a symbolic block table'),
     ]
-    return obs + main_obs() + [o for o in scanfile_obs() if o.name in ('scan.emptydir', 'scan.scan_file', 'scan.link', 'scan.removed.region')]
+    return obs + main_obs() + [o for o in scanfile_obs() if o.name in ('scan.emptydir', 'scan.scan_file', 'scan.link', 'scan.removed.region')] + lock_obs()
 
 
 OPEN_NOATIME = dict(region='open_noatime', file='cmdline/unix.c', begin='int open_noatime(const char* file, int flags)', end='int dirent_hidden(struct dirent* dd)', max_lines=16, expect_loops=0,
